@@ -258,7 +258,12 @@ class Merge(Expr):
                 and set(self.left._meta.index.names) == meta_index_names
             ):
                 return self._bcast_left._divisions()
-            _npartitions = max(self.left.npartitions, self.right.npartitions)
+            # one output partition per partition of the side that is not broadcast
+            # (which ``npartitions=`` may have repartitioned)
+            if self.broadcast_side == "left":
+                _npartitions = self._bcast_right.npartitions
+            else:
+                _npartitions = self._bcast_left.npartitions
 
         else:
             _npartitions = self._npartitions
